@@ -239,6 +239,11 @@ def main():
             raise MachineryError("worker crashed: %s\n%s" % (res["crash"], res.get("tb")))
         recs += res["recs"]
     recs.sort(key=lambda r_: r_["id"])
+    if not recs:
+        if ck.violations:
+            ck.notes.append("every worker process died while observing plans: no record could be validated")
+            return ck.finish()
+        raise MachineryError("no plan was observed")
     for rec in recs:
         c = rec["cfg"]
         ck.count(key=(tuple(c["dims"]), c["r2c"], c["fwd"], c["inplace"], c["bf"], c["nt"]) if max(c["dims"]) > 1 else None)
